@@ -557,6 +557,20 @@ func (s *Sim) handler(h int) mqtt.Handler {
 	slow := s.sc.Cfg.SlowHandlerUs
 	return mqtt.HandlerFunc(func(m *mqtt.Message) {
 		s.log(Rec{Kind: "hin", V: int64(h), P: msgPkt(m)})
+		if h == 3 && s.sc.Cfg.Client == "base" && !s.race {
+			// calls back into the client that is serving it
+			s.mu.Lock()
+			var b *mqtt.BaseClient
+			if len(s.bases) > 0 {
+				b = s.bases[0]
+			}
+			s.reN++
+			n := s.reN
+			s.mu.Unlock()
+			if b != nil {
+				_ = b.Publish(context.Background(), &mqtt.Message{Topic: "re", QoS: 0, Payload: []byte(fmt.Sprintf("re%d", n))})
+			}
+		}
 		if slow > 0 && !s.race {
 			time.Sleep(time.Duration(slow) * time.Microsecond)
 		}
